@@ -75,6 +75,8 @@ type Node struct {
 	starve    int
 	crashes   int
 	factoryID int64
+	persisted []persistRow // C02: every state ever persisted to this node's crash DB, as pending attests
+	histSeen  int64
 
 	tmu     sync.Mutex
 	now     time.Duration
@@ -140,6 +142,8 @@ type Sim struct {
 	sync      *syncState
 	maxPeriod map[basics.Round]uint64 // highest period seen in honest-originated votes per round
 	batchOwn  map[int][]UVote // own attest votes emitted in the reaction being collected
+	batchSeq  map[int][]int64 // C02: per entry of batchOwn, the crash DB's persist count when the vote left
+	curHseq   int64
 	shadowSeq int
 	hunt        *hunt
 	huntSeen    map[string]*huntObs
@@ -354,6 +358,17 @@ func (s *Sim) startInst(n *Node, dbPath string, shadow bool) (*inst, error) {
 	if err != nil {
 		return nil, err
 	}
+	if s.cfg.Prop == "C02" {
+		if err := installHist(acc); err != nil {
+			return nil, err
+		}
+		if !shadow {
+			if in.hist, err = db.MakeAccessor(dbPath, false, false); err != nil {
+				return nil, err
+			}
+			in.histOK = true
+		}
+	}
 	if !shadow {
 		n.tmu.Lock()
 		n.cur = in
@@ -522,6 +537,7 @@ func (s *Sim) collect() {
 		for i, m := range out {
 			key, dec := keys[i], decs[i]
 			s.log.Add("  n%d.%d emit %s bcast=%v ex=%d", n.id, in.inc, key, m.bcast, m.except)
+			s.curHseq = m.hseq
 			s.onEmit(n, in, m, key, dec)
 			s.fanout(n, m, key, dec)
 		}
@@ -547,6 +563,11 @@ func (s *Sim) collect() {
 					if s.shadowTick%3 == 0 || n.crashes > 0 || n.led.pendingFlush() {
 						s.shadowCheck(n, vs)
 					}
+				}
+			}
+			for _, n := range s.nodes {
+				if vs := s.batchOwn[n.id]; len(vs) > 0 && s.viol == nil {
+					s.persistCheck(n, vs, s.batchSeq[n.id])
 				}
 			}
 		}
@@ -575,6 +596,7 @@ func (s *Sim) collect() {
 			}
 		}
 		s.batchOwn = nil
+		s.batchSeq = nil
 	}
 }
 
@@ -1078,6 +1100,9 @@ func (s *Sim) cleanup() {
 			in.svc.Shutdown()
 			in.pool.Shutdown()
 			in.acc.Close()
+			if in.histOK {
+				in.hist.Close()
+			}
 		}(in)
 	}
 	if s.avv != nil {
@@ -1237,6 +1262,9 @@ func (s *Sim) retire(in *inst) {
 		in.svc.Shutdown()
 		in.pool.Shutdown()
 		in.acc.Close()
+		if in.histOK {
+			in.hist.Close()
+		}
 	}()
 	synctest.Wait()
 }
